@@ -126,6 +126,43 @@ func c07Geometry(c *fw.Ctx, idx int) {
 		c.Count("default_layout_set_to_" + geojson.DefaultLayout.String())
 		defer func() { geojson.DefaultLayout = geom.XY }()
 	}
+	if r.Chance(1, 4) {
+		// the intermediate value Encode hands out is an ordinary value: decoding it
+		// once, twice, and marshalling it after that all see the same geometry
+		var eg *geojson.Geometry
+		var d1, d2 geom.T
+		var e0, e1, e2, e3 error
+		var j1, j2 []byte
+		if c.Guard("panic", func() {
+			eg, e0 = geojson.Encode(t)
+			if e0 == nil {
+				j1, e3 = json.Marshal(eg)
+				d1, e1 = eg.Decode()
+				d2, e2 = eg.Decode()
+				if e3 == nil {
+					j2, e3 = json.Marshal(eg)
+				}
+			}
+		}) {
+			return
+		}
+		c.Eval(4)
+		if e0 == nil {
+			c.Count("encode_results_decoded_twice")
+			if (e1 == nil) != (e2 == nil) || e3 != nil || !bytes.Equal(j1, j2) {
+				c.Fail("decode-not-repeatable", "Encode(g).Decode() twice: errors %v / %v; json.Marshal of the same value before and after: equal=%v (err %v)", e1, e2, bytes.Equal(j1, j2), e3)
+				return
+			}
+			if e1 == nil && d1 != nil && d2 != nil && !isNilGeom(d1) && !isNilGeom(d2) {
+				if m1, m2 := model.FromGeom(d1), model.FromGeom(d2); m1 != nil && m2 != nil {
+					if df := model.Equal(m1, m2, model.Opts{}); df != "" {
+						c.Fail("decode-not-repeatable", "the second Decode() of the value Encode returned differs from the first: %s", df)
+						return
+					}
+				}
+			}
+		}
+	}
 	if c.Guard("panic", func() { data, err = geojson.Marshal(t) }) {
 		return
 	}
@@ -970,6 +1007,27 @@ func c07EveryLength(c *fw.Ctx, idx int) {
 			if n == 0 {
 				continue // an empty geometry carries no layout in GeoJSON
 			}
+			if n%25 == 0 {
+				// the value Encode hands out, decoded twice
+				var d1, d2 geom.T
+				var e1, e2 error
+				if c.Guard("panic", func() {
+					eg, e0 := geojson.Encode(t)
+					if e0 != nil {
+						e1 = e0
+						return
+					}
+					d1, e1 = eg.Decode()
+					d2, e2 = eg.Decode()
+				}) {
+					return
+				}
+				c.Eval(2)
+				if e1 != nil || e2 != nil || d1 == nil || d2 == nil || !model.BitsEq(d1.FlatCoords(), want) || !model.BitsEq(d2.FlatCoords(), want) {
+					c.Fail("decode-not-repeatable", "%T of %d positions: Encode(g).Decode() twice: errors %v / %v, ordinates %d / %d of %d", t, n, e1, e2, lenFlat(d1), lenFlat(d2), len(want))
+					return
+				}
+			}
 			var back geom.T
 			if c.Guard("panic", func() { err = geojson.Unmarshal(b, &back) }) {
 				return
@@ -985,6 +1043,13 @@ func c07EveryLength(c *fw.Ctx, idx int) {
 	if idx%1000 == 0 {
 		c.Distinct(fmt.Sprintf("every-length/%d", idx))
 	}
+}
+
+func lenFlat(t geom.T) int {
+	if t == nil || isNilGeom(t) {
+		return -1
+	}
+	return len(t.FlatCoords())
 }
 
 // ---- decoder totality ----
@@ -1190,7 +1255,7 @@ func init() {
 			{Name: "features", Quick: 40000, Thorough: 500000, Run: c07Feature},
 			{Name: "numeric-ids", Quick: 3000, Thorough: 100000, Run: c07NumericID},
 			{Name: "foreign-documents", Quick: 20000, Thorough: 400000, Run: c07Foreign},
-			{Name: "every-length", Quick: 3001, Thorough: 20001, Chunk: 40, Run: c07EveryLength, Exhaustive: "line string, multipoint and polygon ring of every number of positions from 0 to the class count"},
+			{Name: "every-length", Quick: 4501, Thorough: 20001, Chunk: 40, Run: c07EveryLength, Exhaustive: "line string, multipoint and polygon ring of every number of positions from 0 to the class count"},
 			{Name: "huge", Quick: 4, Thorough: 48, Chunk: 1, Run: c07Huge},
 			{Name: "decoders", Quick: 300000, Thorough: 8000000, Run: c07Decoders, RawReplay: c07RawReplay},
 		},
